@@ -101,6 +101,8 @@ async def run_scenario(steps, init_session=None):
             drain()
             state["current"] = k
             obs[k]["posted"] = True
+            obs[k]["t_post"] = asyncio.get_running_loop().time()
+            state["t_last_post"] = obs[k]["t_post"]
             obs[k]["sent_session"] = request.headers.get("mcp-session-id")
             obs[k]["accept"] = request.headers.get("accept")
         obs[k]["posts"] += 1
@@ -207,6 +209,7 @@ async def run_socket_scenario(steps, init_session=None, timeout=5.0):
                 payload = None
             if isinstance(payload, dict) and payload.get("method") == SENTINEL:
                 drain()
+                state["t_sentinel"] = asyncio.get_running_loop().time()
                 state["current"] = None
                 state["sentinel_session"] = hdrs.get("mcp-session-id")
                 writer.write(b"HTTP/1.1 202 Accepted\r\ncontent-length: 0\r\nconnection: close\r\n\r\n")
@@ -224,13 +227,15 @@ async def run_socket_scenario(steps, init_session=None, timeout=5.0):
             drain()
             state["current"] = k
             obs[k]["posted"] = True
+            obs[k]["t_post"] = asyncio.get_running_loop().time()
+            state["t_last_post"] = obs[k]["t_post"]
             obs[k]["sent_session"] = hdrs.get("mcp-session-id")
             obs[k]["posts"] += 1
             ans = steps[k]["ans"]
             if ans["kind"] == "exc":
                 if ans["exc"] == "read-timeout":
                     try:                                  # stay silent until the client gives up and hangs up
-                        await asyncio.wait_for(reader.read(), timeout * 4)
+                        await asyncio.wait_for(reader.read(), timeout * 12)
                     except (TimeoutError, asyncio.TimeoutError):
                         pass
                 elif ans["exc"] == "aborted":
@@ -282,7 +287,14 @@ async def run_socket_scenario(steps, init_session=None, timeout=5.0):
     finally:
         server.close()
         await server.wait_closed()
-    return {"steps": obs, "alive": alive, "stray": state["stray"], "sentinel_session": state["sentinel_session"]}
+    # the sender loop is serial: the NEXT post (or the sentinel) reaches the server only when the transport is done with the
+    # previous request - for a silent server that is when its timeout fired
+    posted = sorted((o["t_post"], i) for i, o in enumerate(obs) if o.get("t_post") is not None)
+    for n, (t, i) in enumerate(posted):
+        nxt = posted[n + 1][0] if n + 1 < len(posted) else state.get("t_sentinel")
+        obs[i]["busy_s"] = None if nxt is None else round(nxt - t, 3)
+    return {"steps": obs, "alive": alive, "stray": state["stray"], "sentinel_session": state["sentinel_session"],
+            "timeout": timeout}
 
 
 async def run_refused(req):
